@@ -1893,20 +1893,30 @@ func (c *FCtx) mergeStates(sts []*State) *State {
 	}
 	for o := range objs {
 		var vals []Value
-		ok := true
+		partial := false
 		for _, s := range sts {
 			v, has := s.vars[o]
 			if !has {
-				ok = false
-				break
+				partial = true
+				// declared in a branch only: out of Go scope after the join, kept (with an arbitrary value on the
+				// other paths) so that specifications guarded by the branch condition can still name it
+				if _, isVar := o.(*types.Var); isVar {
+					fv, _ := c.freshValue(o.Type(), "nl_"+o.Name())
+					v = fv
+				} else {
+					v = nil
+				}
 			}
 			vals = append(vals, v)
 		}
-		if !ok {
-			continue // variable not live on all paths (declared in a branch)
+		if vals[0] == nil {
+			continue
 		}
 		mv, good := c.mergeValues(named, vals)
 		if !good {
+			if partial {
+				continue
+			}
 			return nil
 		}
 		m.vars[o] = mv
